@@ -142,6 +142,23 @@ def flush (beh : Id → Rect → List DrawOp) (st : St) : Res (St × List Shot) 
     let t ← flushQueue st
     flushRender beh st t
 
+/-- The `tickit_window_expose` calls the handlers made while the flush ran, in order.  During the loop of
+    `tickit_window_flush` the damage set has already been copied and cleared and `needs_expose` reset, and nothing the
+    rendering reads is touched by `expose` (it only adds to the root's damage and sets flags), so performing them after
+    the rendering is the same as interleaving them: the damage they record is for the *next* flush. -/
+def applyExposes (fuel : Nat) : Tree → List (Id × Option Rect) → Res Tree
+  | t, [] => .ok t
+  | t, (w, e) :: rest => do
+    let t ← expose t fuel w e
+    applyExposes fuel t rest
+
+/-- `tickit_window_flush` with handlers that also expose: `behExp w rect` lists the exposes window `w`'s handler makes
+    when handed `rect`. -/
+def flushX (beh : Id → Rect → List DrawOp) (behExp : Id → Rect → List (Id × Option Rect)) (st : St) : Res (St × List Shot) := do
+  let r ← flush beh st
+  let t ← applyExposes st.fuel r.1.tree (r.2.flatMap fun sh => behExp sh.win sh.rect)
+  pure ({ r.1 with tree := t }, r.2)
+
 /-! ### scrolling -/
 
 /-- A performed `tickit_term_scrollrect` on the grid: inside `rect` (and the terminal) every cell receives the cell
